@@ -5112,6 +5112,10 @@ where
             return Ok(0);
         };
 
+        // Snapshot so that an error after the removal has been committed (neighbor wiring,
+        // follow-up Delaunay repair) leaves the triangulation exactly as it was.
+        let tds_snapshot = self.tri.tds.clone();
+
         // Fast path: inverse k=1 flip when the vertex star is a simplex.
         let mut seed_cells: Option<CellKeyBuffer> = None;
         let cells_removed = match apply_bistellar_flip_k1_inverse(
@@ -5124,6 +5128,7 @@ where
                 info.removed_cells.len()
             }
             Err(FlipError::NeighborWiring { message }) => {
+                self.tri.tds = tds_snapshot;
                 return Err(TdsValidationError::InconsistentDataStructure {
                     message: format!("inverse k=1 flip failed during remove_vertex: {message}"),
                 }
@@ -5139,11 +5144,13 @@ where
         if self.should_run_delaunay_repair_for(topology, 0) {
             let seed_ref = seed_cells.as_deref();
             let (tds, kernel) = (&mut self.tri.tds, &self.tri.kernel);
-            repair_delaunay_with_flips_k2_k3(tds, kernel, seed_ref, topology).map_err(|e| {
-                TdsValidationError::InconsistentDataStructure {
+            if let Err(e) = repair_delaunay_with_flips_k2_k3(tds, kernel, seed_ref, topology) {
+                self.tri.tds = tds_snapshot;
+                return Err(TdsValidationError::InconsistentDataStructure {
                     message: format!("Delaunay repair failed after vertex removal: {e}"),
                 }
-            })?;
+                .into());
+            }
         }
 
         Ok(cells_removed)
